@@ -167,6 +167,20 @@ def _main_check(ctx: Ctx) -> None:
     ctx.check(len(res) == 1 and isinstance(res[0].value, ast.Name) and res[0].value.id == "PPQN", "RES", "MidiFile.save sets ticks_per_beat = PPQN",
               function=sv.qualname, construct="file resolution not set from the library resolution", message=f"{[short(s) for s in res]}",
               file=sv.file, node=sv.node)
+    # --- WRITE: the file is actually written, to the path that was given, on every call
+    from ..astutil import path_conditions, early_exits_before
+    ss = p.func("Sequence.sequences_save")
+    for f2, recv_is, what in ((sv, "mido.MidiFile", "MidiFile.save hands the assembled mido file to mido's save(path)"),
+                              (ss, "MidiFile", "sequences_save writes the assembled MidiFile to the given path")):
+        path_p = f2.params[-1] if f2 is ss else f2.params[1]
+        built = {a.targets[0].id for a in walk_local(f2.node) if isinstance(a, ast.Assign) and isinstance(a.targets[0], ast.Name) and isinstance(a.value, ast.Call)
+                 and src(a.value.func) == recv_is}
+        calls = [c for c in walk_local(f2.node) if isinstance(c, ast.Call) and call_method(c)[1] == "save" and isinstance(call_method(c)[0], ast.Name)
+                 and call_method(c)[0].id in built]
+        ok = len(calls) == 1 and len(calls[0].args) == 1 and isinstance(calls[0].args[0], ast.Name) and calls[0].args[0].id == path_p \
+            and not path_conditions(calls[0]) and not early_exits_before(f2.node, calls[0]) and not any(isinstance(a, (ast.For, ast.While)) for a in ancestors(calls[0]))
+        ctx.check(ok, "WRITE", f"{f2.qualname}: {what}", function=f2.qualname, construct=f"{f2.qualname} does not write the file to the given path on every call",
+                  message=f"save calls on the object built here: {[short(c) for c in calls]}", file=f2.file, node=calls[0] if calls else f2.node)
     # --- ORDER
     for q, itname, what in (("MidiFile.save", ["self", "tracks"], "to_mido_track"), ("MidiFile.parse_mido", None, "parse_mido_track"),
                             ("Sequence.sequences_save", None, "to_midi_track"), ("RelativeSequence.to_midi_track", ["self", "_messages"], "parse_internal_message"),
